@@ -24,7 +24,7 @@ CLAIM = dict(
          "IOBase.readline / readlines modelled by hand as loops over readinto / read(1) (validated differentially); "
          "io.BufferedReader and TextIOWrapper are exercised by the harness only (they call readinto with sizes of their own choosing, "
          "which the invariant theorem quantifies over); limits are non-negative; CPython's 4300-digit int() limit is outside the domain. "
-         "Known finding: an unbounded read() on a limit-is-maximum stream returns exactly max bytes of a longer body without error.",
+         "On a limit-is-maximum stream a body of exactly max bytes is reported as too large (the end cannot be seen without reading past the maximum).",
     design="6/C09")
 
 
@@ -231,6 +231,21 @@ while not self.is_exhausted:
     if not data:
         break
     out.extend(data)
+if H_post:
+    self.on_exhausted()
+return bytes(out)'''
+
+# the loop without the report of a reached maximum (before the repair): recognised so that the model follows the
+# source and the theorems, not the translator, say what is wrong
+READALL_SKELETON_OLD = '''if self.is_exhausted:
+    self.on_exhausted()
+    return b''
+out = bytearray()
+while not self.is_exhausted:
+    data = self.read(H_chunk)
+    if not data:
+        break
+    out.extend(data)
 return bytes(out)'''
 
 EXHAUST_SKELETON = '''if not self.is_exhausted:
@@ -296,8 +311,18 @@ def _gen_readall(cls):
     except (AttributeError, IndexError) as e:
         raise px.Unsupported(f"LimitedStream.readall: shape changed ({e})") from e
     chunk = holes["H_chunk"]
+    post = "false"
+    if len(body) == 5 and isinstance(body[3], ast.If):
+        holes["H_post"] = body[3].test
+        t, post = T2("LimitedStream.readall", {"self._limit_is_max": ("bool", "is_max"),
+                                               "self.is_exhausted": ("bool", "exhausted")}).expr(body[3].test)
+        if t != "bool":
+            raise px.Unsupported("readall: test after the loop is not boolean")
+        expected = READALL_SKELETON
+    else:
+        expected = READALL_SKELETON_OLD
     skel = ast.unparse(ast.fix_missing_locations(_Holes(holes).visit(ast.Module(body=body, type_ignores=[]))))
-    if skel != READALL_SKELETON:
+    if skel != expected:
         raise px.Unsupported("LimitedStream.readall: statement skeleton changed:\n" + skel)
     val = px.const(chunk) if not isinstance(chunk, ast.BinOp) else None
     if val is None:
@@ -312,7 +337,10 @@ def _gen_readall(cls):
     skel2 = ast.unparse(ast.Module(body=strip_doc(fn2.body), type_ignores=[]))
     if skel2 != EXHAUST_SKELETON:
         raise px.Unsupported("LimitedStream.exhaust: statement skeleton changed:\n" + skel2)
-    return f"(* LimitedStream.readall: data = self.read(<chunk>) inside the pinned loop skeleton *)\nDefinition readall_chunk : N := {c}.\n"
+    return ("(* LimitedStream.readall: data = self.read(<chunk>) inside the pinned loop skeleton; after the loop\n"
+            "   `if <readall_post>: self.on_exhausted()` (false: the source has no such statement) *)\n"
+            f"Definition readall_chunk : N := {c}.\n"
+            f"Definition readall_post (is_max exhausted : bool) : bool := {post}.\n")
 
 
 def gen() -> None:
@@ -595,8 +623,9 @@ def impl_ls(data, limit, is_max, hasri, sched, ops, fails: list, stream=None, un
             bad("413-missing", f"{o} at the maximum returned {r}")
         if exn is None and eof and not is_max and ls._pos != limit:
             bad("silent-truncation", f"{o} signalled end of stream at {ls._pos} of {limit} declared bytes")
+        # (exhaust() called at the limit is a no-op by definition: it returns the nothing that remains)
         if exn is None and eof and is_max and f[0] in ("a", "e", "L") and ls._pos >= limit and und.off < len(data) \
-                and (f[0] != "L" or f[1] == "-"):
+                and (f[0] != "L" or f[1] == "-") and not (f[0] == "e" and pos0 >= limit):
             bad("max-unbounded-read-truncates",
                 f"{o} on a limit-is-maximum stream returned {len(d)} bytes of a {len(data)}-byte body without RequestEntityTooLarge")
         if f[0] in ("a", "e") and len(evs) > max(1, limit - pos0):
